@@ -229,6 +229,14 @@ def to_tk(circuit):
             bits, qubits = measure_qubits(
                 qubits, bits, box, left.count(bit), left.count(qubit))
         elif isinstance(box, Discard):
+            off, n_discarded = left.count(bit), box.dom.count(bit)
+            if n_discarded:  # marginalise over the discarded bits
+                right = Id(tk_circ.post_processing.cod[off + n_discarded:])
+                tk_circ.post_process(
+                    Id(bit ** off)
+                    @ ClassicalGate(
+                        "Discard", n_discarded, 0, 2 ** n_discarded * [1])
+                    @ right)
             bits = bits[:left.count(bit)]\
                 + bits[left.count(bit) + box.dom.count(bit):]
             qubits = qubits[:left.count(qubit)]\
